@@ -50,6 +50,7 @@ class FakeHW(HardwareLayerBase):
         self.fail_batch = False      # read/read_batch/write_batch and single write issued *first* in an event
         self.fail_single_write = False
         self.fail_connect = False
+        self.partial = False          # a failing write reaches the hardware (first register of a batch / the single value) before raising
         self.calls = 0
 
     def read(self, r):
@@ -67,6 +68,9 @@ class FakeHW(HardwareLayerBase):
     def write(self, value, r):
         self.calls += 1
         if self.fail_single_write:
+            if self.partial:
+                self.out[r.name] = value
+                self.wlog.append((r.name, value))
             raise HardwareLayerException("write failed")
         self.out[r.name] = value
         self.wlog.append((r.name, value))
@@ -74,6 +78,9 @@ class FakeHW(HardwareLayerBase):
     def write_batch(self, values, registers):
         self.calls += 1
         if self.fail_batch:
+            if self.partial and len(registers) > 0:
+                self.out[registers[0].name] = values[0]
+                self.wlog.append((registers[0].name, values[0]))
             raise HardwareLayerException("write_batch failed")
         for v, r in zip(values, registers):
             self.out[r.name] = v
@@ -91,11 +98,11 @@ class FakeHW(HardwareLayerBase):
 # event alphabet --------------------------------------------------------------
 EV_QUICK = (
     "rb_ok", "rb_fail",
-    "wb_new_ok", "wb_new_fail", "wb_same_ok", "wb_same_fail", "wb_new_ok_pf",
+    "wb_new_ok", "wb_new_fail", "wb_same_ok", "wb_same_fail", "wb_new_ok_pf", "wb_new_partial_fail", "wb_prev_ok",
     "el_rec", "el_err",
     "tick_ok", "tick_fail",
 )
-EV_THOROUGH = EV_QUICK + ("r_ok", "r_fail", "w_new_ok", "w_new_fail", "w_same_ok", "el_small", "wb_half_ok")
+EV_THOROUGH = EV_QUICK + ("r_ok", "r_fail", "w_new_ok", "w_new_fail", "w_same_ok", "el_small", "wb_half_ok", "w_new_partial_fail")
 
 
 class Sys:
@@ -115,7 +122,8 @@ class Sys:
         self.fresh = 0.0
         self.commanded: dict[str, float] = {}        # register -> most recently commanded value
         self.last_read_ok: dict[str, float] = {}     # register -> last value successfully read
-        self.max_written: dict[str, float] = {}
+        self.max_written: dict[str, float] = {}     # register -> command index of the newest value that reached it
+        self.cmdlog: dict[str, list] = {}           # register -> values in the order they were commanded
         self.obs: list = []                          # per-event observation records
         self.last_cycle_full_ok = False
 
@@ -130,6 +138,7 @@ class Sys:
         f.fail_batch = False
         f.fail_single_write = False
         f.fail_connect = False
+        f.partial = "_partial_" in ev
         self.last_cycle_full_ok = False
         wlog0 = len(f.wlog)
         calls0 = f.calls
@@ -150,11 +159,16 @@ class Sys:
             elif ev.startswith("wb_") or ev.startswith("w_"):
                 batch = ev.startswith("wb_")
                 regs = WRITE_REGS if batch else [W2]
-                if "_half_" in ev:
+                if "_prev_" in ev:
+                    prev = getattr(self, "prev_commanded", None) or {}
+                    for r in regs:
+                        self.commanded[r.name] = prev.get(r.name, self.commanded.get(r.name, self._fresh()))
+                elif "_half_" in ev:
                     # a cycle in which only one register gets a new value
                     self.commanded["RW1"] = self._fresh()
                     self.commanded.setdefault("W2", self._fresh())
                 elif "_new_" in ev:
+                    self.prev_commanded = dict(self.commanded)
                     for r in regs:
                         self.commanded[r.name] = self._fresh()
                 else:
@@ -201,10 +215,17 @@ class Sys:
         rec["status"] = str(self.tag.value)
         rec["writes"] = list(f.wlog[wlog0:])
         rec["stale"] = []
+        # a write is stale if the value it carries was last commanded *before* a value that already reached the register
+        # (values may legitimately repeat, so a write is attributed to the latest command that carried that value)
+        if "vals" in rec:
+            for name, v in zip(rec["regs"], rec["vals"]):
+                self.cmdlog.setdefault(name, []).append(v)
         for name, v in rec["writes"]:
-            if name in self.max_written and v < self.max_written[name]:
-                rec["stale"].append((name, v, self.max_written[name]))
-            self.max_written[name] = max(v, self.max_written.get(name, v))
+            log = self.cmdlog.get(name, [])
+            seq = max((i for i, x in enumerate(log) if x == v), default=-1)
+            if name in self.max_written and seq < self.max_written[name]:
+                rec["stale"].append((name, v, log[int(self.max_written[name])] if log else None))
+            self.max_written[name] = max(float(seq), self.max_written.get(name, float(seq)))
         rec["full_ok"] = self.last_cycle_full_ok
         rec["mem"] = dict(f.out)
         rec["commanded"] = dict(self.commanded)
@@ -232,7 +253,8 @@ def canon(s: Sys):
     now = s.clock.now
     allv = (list(d.last_known_good_reads.values()) + list(d.pending_writes.values())
             + list(d.last_success_writes.values()) + list(f.out.values()) + list(f.inp.values())
-            + list(s.commanded.values()) + list(s.last_read_ok.values()) + list(s.max_written.values()))
+            + list(s.commanded.values()) + list(s.last_read_ok.values())
+            + list((getattr(s, "prev_commanded", None) or {}).values()))
     rk = _rank(allv)
 
     def m(dct, key=lambda k: k):
@@ -243,7 +265,8 @@ def canon(s: Sys):
         min(now - d.last_success_read_write, cap), min(now - d.last_state_reconnect_time, cap),
         d.reconnect_tick,
         m(d.last_known_good_reads), m(d.pending_writes, key=lambda r: r.name), m(d.last_success_writes),
-        m(f.out), m(f.inp), m(s.commanded), m(s.last_read_ok), m(s.max_written),
+        m(f.out), m(f.inp), m(s.commanded), m(s.last_read_ok), m(getattr(s, "prev_commanded", None) or {}),
+        tuple(sorted((k, len(s.cmdlog.get(k, [])) - 1 - int(v)) for k, v in s.max_written.items())),
     )
 
 
